@@ -4,7 +4,9 @@
 (*   op, w | B, ids (sample), size (len(buffer)), contents (ids decoded     *)
 (*   field by field from storage[:len]), rows_ok (all fields of each row    *)
 (*   decode to one id), handed_ok (every batch handed out earlier still     *)
-(*   decodes to the ids it had when it was returned).                       *)
+(*   decodes to the ids it had when it was returned), idx_ok (sample with    *)
+(*   return_idx: row i of the batch is the row stored at position idxs[i];   *)
+(*   TRUE when no indices were requested).                                   *)
 EXTENDS Ring, Json, IOUtils, TLCExt
 
 CONSTANT Diag
@@ -44,6 +46,7 @@ TSample ==
   /\ Check("sample has B rows", Len(Ev.ids) = Ev.B)
   /\ Check("sampled ids are stored ids", ToSet(Ev.ids) \subseteq Contents)
   /\ Check("no duplicates in one batch", Cardinality(ToSet(Ev.ids)) = Ev.B)
+  /\ Check("returned idxs locate the returned rows in the storage", Ev.idx_ok)
   /\ Sample(Ev.B, [i \in 1..Ev.B |-> CHOOSE p \in 0..(size - 1) : store[p] = Ev.ids[i]])
   /\ Post
 
